@@ -1021,13 +1021,26 @@ mod verif_trust {
         if k == 0 { tgt_first(h) } else { ct(h, k - 1) + if matches!(kind(&h.lines()[k - 1]), Kind::Ctx | Kind::Add) { 1 } else { 0 } }
     }
 
-    /// line_wf(h, k), returned as the list of violated clauses
+    /// line_wf(h, k), returned as the list of violated clauses. A line of kind Other (git's
+    /// `\ No newline at end of file` marker) is admitted in exactly one position, `marker_wf(ls, k)`:
+    /// no line number of either file, directly after a removed line, not the last line of the hunk and
+    /// directly before an added line (T-ext of prelude/diff_lines_spec.rs: marker lines only between
+    /// the last removed and the first added line of a group; a trailing marker is dropped by unidiff's
+    /// early break).
     fn line_wf_violations(h: &unidiff::Hunk, k: usize) -> Vec<&'static str> {
         let ls = h.lines();
         let mut v = Vec::new();
         let kd = kind(&ls[k]);
         if kd == Kind::Other {
-            v.push("kind(ls[k]) != Kind::Other");
+            if !(ls[k].source_line_no.is_none() && ls[k].target_line_no.is_none()) {
+                v.push("Other ==> marker_wf: ls[k].source_line_no is None && ls[k].target_line_no is None");
+            }
+            if !(k > 0 && kind(&ls[k - 1]) == Kind::Rem) {
+                v.push("Other ==> marker_wf: k > 0 && kind(ls[k - 1]) == Kind::Rem");
+            }
+            if !(k + 1 < ls.len() && kind(&ls[k + 1]) == Kind::Add) {
+                v.push("Other ==> marker_wf: k + 1 < ls.len() && kind(ls[k + 1]) == Kind::Add");
+            }
         }
         if (kd == Kind::Add || kd == Kind::Ctx) && ls[k].target_line_no.map(|n| n as i64) != Some(ct(h, k)) {
             v.push("Add/Ctx ==> target_line_no == Some(ct(h, k))");
@@ -1039,6 +1052,11 @@ mod verif_trust {
             v.push("k > 0 && Rem ==> kind(ls[k - 1]) != Add");
         }
         v
+    }
+
+    /// number of lines of kind Other (marker lines) that unidiff kept inside the hunks of the file
+    fn marker_lines_in_hunks(f: &unidiff::PatchedFile) -> usize {
+        f.hunks().iter().map(|h| h.lines().iter().filter(|l| kind(l) == Kind::Other).count()).sum()
     }
 
     fn file_wf_violations(f: &unidiff::PatchedFile) -> Vec<String> {
@@ -1089,6 +1107,8 @@ mod verif_trust {
         }
         let tmp = tempfile::tempdir().unwrap();
         let (old_p, new_p) = (tmp.path().join("old.txt"), tmp.path().join("new.txt"));
+        // marker lines (`\ No newline at end of file`) in the diff text / kept inside a parsed hunk
+        let (mut markers_in_text, mut markers_in_hunks) = (0usize, 0usize);
         let mut run = |t: &mut Topic, old: &str, new: &str, context: usize, spec: &str| {
             std::fs::write(&old_p, old).unwrap();
             std::fs::write(&new_p, new).unwrap();
@@ -1107,10 +1127,12 @@ mod verif_trust {
             match unidiff::PatchSet::from_str(&diff) {
                 Err(e) => t.check(spec, "a git diff parses", input, json!("parsed"), json!(e.to_string())),
                 Ok(ps) => {
+                    markers_in_text += diff.lines().filter(|l| l.starts_with('\\')).count();
+                    markers_in_hunks += ps.files().iter().map(marker_lines_in_hunks).sum::<usize>();
                     let violations: Vec<String> = ps.files().iter().flat_map(file_wf_violations).collect();
                     t.check(
                         spec,
-                        "file_numbered(f) && file_wf(f): every +/-/context line is numbered by the running cursors cs/ct (zero-length side names the line before), no line of another kind, removed lines precede added lines in a run, header lengths = line counts, at least one unchanged line between hunks",
+                        "file_numbered(f) && file_wf(f): every +/-/context line is numbered by the running cursors cs/ct (zero-length side names the line before), a line of another kind (the `\\ No newline at end of file` marker) has no line number, directly follows a removed line and is directly followed by an added line, removed lines precede added lines in a run, header lengths = line counts, at least one unchanged line between hunks",
                         input,
                         json!([] as [String; 0]),
                         json!(violations),
@@ -1161,11 +1183,70 @@ mod verif_trust {
             }
         }
         // files WITHOUT a final newline: git prints `\ No newline at end of file`
-        for (old, new) in [("a\nb", "a\nc"), ("a\nb\n", "a\nb"), ("a\nb", "a\nb\n"), ("a\nb", "a\nb\nc"), ("x", "x\ny\n")] {
+        const NO_EOL_SPEC: &str = "file_wf / file_numbered on `git diff` when a file has NO final newline (marker lines)";
+        for (old, new) in [("a\nb", "a\nc"), ("a\nb\n", "a\nb"), ("a\nb", "a\nb\n"), ("a\nb", "a\nb\nc"), ("x", "x\ny\n"), ("a\nb", "c"), ("a\nb\nc", "a\nx\ny\nz"), ("a\nb\nc", "a")] {
             for context in [0usize, 3] {
-                run(&mut t, old, new, context, "file_wf on `git diff` when a file has NO final newline");
+                run(&mut t, old, new, context, NO_EOL_SPEC);
             }
         }
-        t.finish("REAL `git diff --no-index -U0/-U1/-U3` of every edit script (delete any subset, insert 0..=1 line per gap) on files of 0..=4 lines, 6 multi-hunk edits of a 12-line file at -U0..-U3, 5 pairs of files without a final newline; parsed with the real unidiff crate; line_wf / hunk_wf / hunk_gap / file_numbered / removed_file transcribed from prelude/diff_lines_spec.rs and diff_unidiff.rs");
+        // ... systematically: every edit script on files of 1..=3 lines, the old file, the new file or
+        // both lacking the final newline
+        for n in 1..=3usize {
+            for del_mask in 0..(1usize << n) {
+                for ins_mask in 0..(1usize << (n + 1)) {
+                    let mut old = String::new();
+                    let mut new = String::new();
+                    for g in 0..=n {
+                        if ins_mask & (1 << g) != 0 {
+                            new.push_str(&format!("new{g}\n"));
+                        }
+                        if g < n {
+                            old.push_str(&format!("line{g}\n"));
+                            if del_mask & (1 << g) == 0 {
+                                new.push_str(&format!("line{g}\n"));
+                            }
+                        }
+                    }
+                    for (old_bare, new_bare) in [(true, false), (false, true), (true, true)] {
+                        if new_bare && new.is_empty() {
+                            continue;
+                        }
+                        let old_text = if old_bare { old.trim_end_matches('\n').to_string() } else { old.clone() };
+                        let new_text = if new_bare { new.trim_end_matches('\n').to_string() } else { new.clone() };
+                        for context in [0usize, 1, 3] {
+                            run(&mut t, &old_text, &new_text, context, NO_EOL_SPEC);
+                        }
+                    }
+                }
+            }
+        }
+        // ... and a 12-line old file without a final newline whose tail is deleted / re-written (several hunks)
+        let old_bare: String = (0..12).map(|i| if i < 11 { format!("line{i}\n") } else { format!("line{i}") }).collect();
+        for (dels, tail) in [(vec![11usize], "x\n"), (vec![10, 11], "x\ny\n"), (vec![2, 11], "x"), (vec![0, 5, 9, 10, 11], "x\ny\nz"), (vec![4], "")] {
+            let mut new = String::new();
+            for g in 0..12usize {
+                if !dels.contains(&g) {
+                    new.push_str(&format!("line{g}\n"));
+                }
+            }
+            if !dels.contains(&11) {
+                new.pop();
+            }
+            new.push_str(tail);
+            for context in [0usize, 1, 2, 3] {
+                run(&mut t, &old_bare, &new, context, NO_EOL_SPEC);
+            }
+        }
+        drop(run);
+        if t.deviations.is_empty() && (markers_in_hunks == 0 || markers_in_hunks >= markers_in_text) {
+            t.check(
+                "harness consistency",
+                "the enumeration contains marker lines that unidiff keeps inside a hunk and marker lines that it drops",
+                json!({"marker_lines_in_diff_text": markers_in_text, "marker_lines_kept_in_hunks": markers_in_hunks}),
+                json!(true),
+                json!(false),
+            );
+        }
+        t.finish(&format!("REAL `git diff --no-index -U0/-U1/-U3` of every edit script (delete any subset, insert 0..=1 line per gap) on files of 0..=4 lines, 6 multi-hunk edits of a 12-line file at -U0..-U3; files WITHOUT a final newline (old side, new side, both): every such edit script on files of 1..=3 lines at -U0/-U1/-U3, 8 hand-picked pairs, 5 edits of a 12-line file at -U0..-U3 - {markers_in_text} `\\ No newline at end of file` lines in the diff texts, {markers_in_hunks} of them kept inside a parsed hunk (each must satisfy marker_wf), the others dropped by unidiff's early break; parsed with the real unidiff crate; line_wf (incl. marker_wf) / hunk_wf / hunk_gap / file_numbered / removed_file transcribed from prelude/diff_lines_spec.rs and diff_unidiff.rs"));
     }
 }
